@@ -1,7 +1,9 @@
 #!/usr/bin/env python3
 """Summarise a tools/benigntest.py --out JSON into benign/RESULTS.txt (committed record of the last full run)."""
 import json, sys, os, collections
-res = json.load(open(sys.argv[1]))
+res = []
+for a_ in sys.argv[1:]:
+    res.extend(json.load(open(a_)))   # several runs may be concatenated (e.g. rounds 1-4 and round 5)
 HERE = os.path.dirname(os.path.dirname(os.path.abspath(__file__)))
 lines = ['Last full run of all 20 checks on every behaviour-preserving patch under benign/ (tools/benigntest.py).',
          'A patch counts as an alarm when any check exits non-zero on the patched tree (1 = VIOLATION, 2 = ANALYSIS-ERROR).', '']
@@ -10,7 +12,7 @@ alarms = []
 for r in res:
     v = r['variant']
     n = int(v.split('/b')[1])
-    rd = 1 if n <= 5 else 2 if n <= 9 else 3 if n <= 13 else 4
+    rd = 1 if n <= 5 else 2 if n <= 9 else 3 if n <= 13 else 4 if n <= 17 else 5
     by_round[rd][0] += 1
     if r.get('error'):
         alarms.append('%-10s ERROR %s' % (v, r['error'][:120])); by_round[rd][1] += 1
